@@ -38,7 +38,12 @@ mod stream;
 mod util;
 
 mod mon_board;
+mod mon_draws;
+mod mon_picker;
+mod mon_pos;
 mod mon_selftest;
+mod mon_tables;
+mod mon_walk;
 
 use util::{Args, Report};
 
@@ -71,6 +76,42 @@ fn main() {
         "c01" => {
             init();
             mon_board::run_c01(&args, seed, &tier, &report)
+        }
+        "c02" => {
+            init();
+            mon_walk::run(mon_walk::Prop::C02, &args, seed, &tier, &report)
+        }
+        "c03" => {
+            init();
+            mon_walk::run(mon_walk::Prop::C03, &args, seed, &tier, &report)
+        }
+        "c15" => {
+            init();
+            mon_walk::run(mon_walk::Prop::C15, &args, seed, &tier, &report)
+        }
+        "c07" => {
+            init();
+            mon_tables::run(&args, seed, &report)
+        }
+        "c10" => {
+            init();
+            mon_picker::run(&args, seed, &tier, &report)
+        }
+        "c11" => {
+            init();
+            mon_draws::run(&args, seed, &tier, &report)
+        }
+        "c16" => {
+            init();
+            mon_pos::run(mon_pos::PProp::C16, &args, seed, &tier, &report)
+        }
+        "c18" => {
+            init();
+            mon_pos::run(mon_pos::PProp::C18, &args, seed, &tier, &report)
+        }
+        "c20" => {
+            init();
+            mon_pos::run(mon_pos::PProp::C20, &args, seed, &tier, &report)
         }
         _ => {
             eprintln!("unknown mode {mode}");
